@@ -85,6 +85,15 @@ func TestC05_Trees(t *testing.T) {
 		if err != nil || string(got) != want {
 			t.Fatalf("C05 Go-value path: got %q (%v) want %q", got, err, want)
 		}
+		// different values have different canonical forms
+		v2, how := mutateValue(t, v)
+		got2, err := canonicalizer.MarshalCanonical([]byte(spell(t, v2, 1)))
+		if err != nil || string(got2) != refJCS(v2) {
+			t.Fatalf("C05 modified value (%s): got %q (%v) want %q", how, got2, err, refJCS(v2))
+		}
+		if string(got2) == want {
+			t.Fatalf("C05 two different values (%s) have the same canonical form %q", how, want)
+		}
 		labels := []string{"tree"}
 		nontrivial := false
 		for l := range vi.labels {
